@@ -14,6 +14,10 @@ pub const FAULT_MSG_CLOSURE: &str = "hx-injected closure fault";
 
 pub fn apply_fault(sys: &mut Sys, op: &Op) -> R<Option<usize>> {
     match *op {
+        Op::FaultQuery { w, a, mac, k, dec } if a >= 200 => {
+            fault_query_world(sys, w as usize, a - 200, mac, k as usize, dec)?;
+            Ok(Some(w as usize))
+        }
         Op::FaultQuery { w, a, mac, k, dec } => {
             with_arch!(a as usize, A => fault_query::<A>(sys, w as usize, mac, k as usize, dec))?;
             Ok(Some(w as usize))
@@ -106,6 +110,55 @@ fn fault_query<A: Arch>(sys: &mut Sys, w: usize, mac: u8, k: usize, dec: u8) -> 
         ensure!(d0 == sys.dump_of(w, a), "C10", "query-panic-mutated-world", "a panic in the closure of query macro {} changed the structure of {}", mac, A::NAME);
     }
     check_no_guard_leaked::<A>(sys, w, "a closure panic")
+}
+
+/// The closure of a multi-archetype query panics at its k-th invocation (counted across archetypes).
+fn fault_query_world(sys: &mut Sys, w: usize, qf: u8, mac: u8, k: usize, dec: u8) -> R {
+    let d0 = sys.dumps(w);
+    let mut visited: Vec<Row> = Vec::new();
+    let world = sys.worlds[w].as_mut().unwrap();
+    let res = catch_unwind(AssertUnwindSafe(|| {
+        if mac == 4 {
+            let mut cb = |row: &Row| -> u8 {
+                visited.push(row.clone());
+                if visited.len() == k {
+                    panic!("{}", FAULT_MSG_CLOSURE);
+                }
+                dec
+            };
+            wq_iter_destroy(world, qf, &mut cb)
+        } else {
+            let mut cb = |row: &Row| -> bool {
+                visited.push(row.clone());
+                if visited.len() == k {
+                    panic!("{}", FAULT_MSG_CLOSURE);
+                }
+                false
+            };
+            wq_iter_cb(world, qf, mac == 3, &mut cb)
+        }
+    }));
+    match res {
+        Ok(()) => return vio!("C06", "fault-point-not-reached", "multi-archetype query macro {} invoked its closure only {} times (fault planned at invocation {})", mac, visited.len(), k),
+        Err(p) => {
+            let msg = panic_msg(&p);
+            ensure!(msg.contains(FAULT_MSG_CLOSURE), "C10", "other-panic-during-query", "multi-archetype query macro {} panicked with '{}' instead of propagating the closure's panic", mac, msg);
+        }
+    }
+    sys.c.faults_fired += 1;
+    if mac == 4 && dec == STEP_CONTINUE_DESTROY {
+        for row in &visited[..visited.len() - 1] {
+            let b = row.bits.unwrap();
+            ensure!(sys.models[w].live.contains_key(&b), "C07", "visited-non-live", "ecs_iter_destroy! visited {:?} which is not alive", b);
+            sys.models[w].remove(b);
+        }
+    } else {
+        ensure!(d0 == sys.dumps(w), "C10", "query-panic-mutated-world", "a panic in the closure of multi-archetype query macro {} changed the structure of the world", mac);
+    }
+    for a in sys.sc.archs.clone() {
+        with_arch!(a as usize, A => check_no_guard_leaked::<A>(sys, w, "a closure panic in a multi-archetype query"))?;
+    }
+    Ok(())
 }
 
 fn fault_clone(sys: &mut Sys, w: usize, k: u32) -> R {
